@@ -367,14 +367,23 @@ def case_strategy(tier, classes=("cuckoo", "counting"), allow_reload=False, max_
         if allow_reload:
             ops.append(st.tuples(st.just("reload"), st.integers(0, 1)))
         oplist = [list(o) for o in draw(st.lists(st.one_of(*ops), min_size=3, max_size=max_ops))]
+        # dense profile (1/3): buckets of 2-4 slots, few buckets, every pool key added first - so alternate buckets hold several
+        # entries and removals / look-ups hit fingerprints that are neither in their first bucket nor last in their second
+        dense = draw(st.integers(0, 2)) == 0
+        cap = draw(st.one_of(st.integers(1, 3), st.integers(1, 6)))
+        pool = draw(gen.pool_st(4, 16))
+        if dense:
+            bs = draw(st.integers(2, 4))
+            cap = draw(st.integers(2, 6))
+            oplist = [["add", i] for i in range(len(pool))] + oplist
         enum = 2 * bs ** swaps <= lim and draw(st.integers(0, 7)) == 0
         if enum:
             oplist.append(["add", draw(ki)])
         return {
-            "cls": cls, "cap": draw(st.one_of(st.integers(1, 3), st.integers(1, 6))), "bs": bs, "swaps": swaps,
+            "cls": cls, "cap": cap, "bs": bs, "swaps": swaps,
             "fs": draw(st.sampled_from([1, 2, 4])), "rate": draw(st.sampled_from([2, 2, 3])),
-            "auto": draw(st.booleans()), "hash": draw(st.sampled_from(["default", "narrow", "narrow16", "sha"])),
-            "pool": draw(gen.pool_st(4, 16)), "tape": draw(st.lists(st.integers(0, 5), max_size=60)),
+            "auto": draw(st.booleans()), "hash": draw(st.sampled_from(["default", "narrow", "narrow16", "sha", "clustered", "clustered"])),
+            "pool": pool, "tape": draw(st.lists(st.integers(0, 5), max_size=60)),
             "ops": oplist, "enum_last": enum,
         }
 
